@@ -147,6 +147,8 @@ def c01_one(w, inp, c):
     n = sum(1 for _ in corpus.all_code(c))
     for k in corpus.all_code(c):
         w.stats['c01_theorem_hypotheses_hold' if c01_hypotheses(k) else 'c01_theorem_hypotheses_fail'] += 1
+        # LevelOK of C01_full_roundtrip = the above + the line-table facts of C02 + non-empty bytecode
+        w.stats['c01_levelok_hold' if (c01_hypotheses(k) and c02_hypotheses(k) and len(k.co_code) > 0) else 'c01_levelok_fail'] += 1
     w.stats['code_objects'] += n
     w.seen(ser.s_code(c))
     if e is not None:
